@@ -830,11 +830,27 @@ def _geometry_failures(n, seed, limit=3):
         again = [c.quadrature(kind), cylm.Cylinder(symmetry_line=sc.vector(ax), center_of_base=sc.vector(base, unit='m').to(unit=bu), radius=sc.scalar(r, unit='m').to(unit=ru),
                                                    height=sc.scalar(h, unit='m').to(unit=hu)).quadrature(kind)]
         repeat_ok = all(sc.identical(p2, pts) and sc.identical(w2, w) for p2, w2 in again)
+        # the cylinder is an ordinary (mutable) dataclass: after its fields are changed, it describes the new solid -- everything it
+        # reports equals what a freshly made cylinder with these fields reports (nothing remembered from before the change)
+        if repeat_ok and i % 3 == 0:
+            ax2 = rng.normal(size=3)
+            ax2 /= np.linalg.norm(ax2)
+            c.center_of_base = c.center_of_base + sc.vector(rng.normal(size=3), unit='m').to(unit=bu)
+            c.height = c.height * 1.5
+            c.radius = c.radius * 0.5
+            c.symmetry_line = sc.vector(ax2)
+            fresh = cylm.Cylinder(symmetry_line=c.symmetry_line.copy(), center_of_base=c.center_of_base.copy(), radius=c.radius.copy(), height=c.height.copy())
+            try:
+                p_m, w_m = c.quadrature(kind)
+                p_f, w_f = fresh.quadrature(kind)
+                repeat_ok = sc.identical(p_m, p_f) and sc.identical(w_m, w_f) and sc.identical(c.center, fresh.center) and sc.identical(c.volume, fresh.volume)
+            except Exception:  # noqa: BLE001
+                repeat_ok = False
         if frac_inside < 1.0 or not (w.values > 0).all() or abs(wsum - vol) > 2e-6 * vol or not moments_ok or not repeat_ok:
             if len(fails) < limit:
                 fails.append({'id': f'case{i}', 'index': i, 'seed': seed, 'axis': ax.tolist(), 'kind': kind, 'fraction_of_points_inside': frac_inside,
                               'sum_w/volume': wsum / vol, 'axial_mean/h': m1 / h, 'axial_variance/(h^2/12)': m2 / (h * h / 12), 'radial_square_mean/(r^2/2)': mr / (r * r / 2),
-                              'repeated_request_identical': repeat_ok})
+                              'repeated_request_identical_and_fields_changed_then_as_a_fresh_cylinder': repeat_ok})
     return fails
 
 
